@@ -30,7 +30,7 @@ for _n, _d in (('ff', (0, 0)), ('ffxi', (0, 1)), ('fxif', (1, 0)), ('fxifxi', (1
 POINTS = {'calc_f': 0, 'calc_fxi': 1, 'calc_fxixi': 2}
 VECS = {'calc_vec_f': 0, 'calc_vec_fxi': 1, 'calc_vec_fxixi': 2}
 
-FLAG = re.compile(r'^([uvw])([12])([tr])([xy])(\d*)$')
+FLAG = re.compile(r'^([uvw])([12])([tr])([xy])(\d*|[a-z])$')
 
 
 class Issue:
@@ -149,6 +149,7 @@ class Walker:
         self.obj_params = self._object_params()
         self.nlid = 0
         self.ncount = 0
+        self.tag_pairs = set()   # (tag of the series index' loop bound, tag of the flag set, line)
         self.state_reg = {}      # state atom -> (index base symbol, offset)
         self.lin = {}            # accumulator -> {dof offset: P (roles: S)}
         self.lin_lines = {}
@@ -179,6 +180,12 @@ class Walker:
     # ------------------------------------------------------------------
     def run(self):
         self.walk(self.fn.body)
+        # series indices of one panel must always be paired with flag sets of one (and the same) panel
+        fwd, bwd = {}, {}
+        for it, ft, line in sorted(self.tag_pairs, key=lambda x: x[2]):
+            if fwd.setdefault(it, ft) != ft or bwd.setdefault(ft, it) != it:
+                self.issues.append(Issue('panel', line, 'series index of panel %r paired with flags of panel %r (elsewhere %r <-> %r)' % (it, ft, it, fwd[it])))
+        self.tag_map = fwd
         return self
 
     def walk(self, body):
@@ -377,8 +384,8 @@ class Walker:
             for (tok, idir, itag), (field, fdir, ftag), which in ((i1, f1, 'first'), (i2, f2, 'second')):
                 if idir is not None and idir != fdir:
                     self.issue('direction', node, '%s: %s index runs over %s-terms but its flags are %s-flags' % (name, which, idir, fdir))
-                if itag is not None and itag != ftag:
-                    self.issue('panel', node, '%s: %s index belongs to panel %r, flags to panel %r' % (name, which, itag, ftag))
+                if itag is not None:
+                    self.tag_pairs.add((itag, ftag, node.lineno))
             a = self.atoms.integral(direction, kind,
                                     Factor(i1[0], f1[2], f1[0], d1), Factor(i2[0], f2[2], f2[0], d2), limits)
             return P.sym(a)
@@ -394,8 +401,8 @@ class Walker:
                 return P.sym('BAD(%s@%d)' % (name, node.lineno))
             if i1[1] is not None and i1[1] != f1[1]:
                 self.issue('direction', node, '%s: index runs over %s-terms but flags are %s-flags' % (name, i1[1], f1[1]))
-            if i1[2] is not None and i1[2] != f1[2]:
-                self.issue('panel', node, '%s: index belongs to panel %r, flags to panel %r' % (name, i1[2], f1[2]))
+            if i1[2] is not None:
+                self.tag_pairs.add((i1[2], f1[2], node.lineno))
             a = self.atoms.point(f1[1], Factor(i1[0], f1[2], f1[0], d), self.nf(args[1]))
             return P.sym(a)
         if name == 'float' and len(node.args) == 1:
